@@ -81,9 +81,10 @@ package mqtt
 // Content invariants of the token channels: every sender is obliged to them,
 // every receiver may rely on them.
 //@ chaninv mqtt.Client.writeSem(v): v != nil
-// Exchange channels stay open, one-slot and empty while queued (answered only by the read routine after popping);
+// Exchange channels stay open while queued and keep room for one more error (two slots: at most one write
+// error arrives while queued; the placeholders of AdoptSession have one slot and nobody else holds them);
 // a ping callback is an open one-slot channel that nobody has answered yet.
-//@ chaninv mqtt.outbound.queue(v): v != nil && !closed(v) && cap(v) == 1 && len(v) == 0
+//@ chaninv mqtt.outbound.queue(v): v != nil && !closed(v) && len(v) < cap(v)
 //@ chaninv mqtt.Client.pingAck(v): v != nil && !closed(v) && cap(v) == 1 && len(v) == 0
 
 // A registered callback channel is touched only by the read routine when it removes the entry.
